@@ -27,6 +27,9 @@ func (m *Machine) envIntrinsic2(name string, fn *ssa.Function, args []Value) (Va
 	c := m.ctx
 	nilErr := IfaceV{}
 	switch name {
+	case "crypto/rand.Read":
+		m.stub(name)
+		return TupleV{c.IntI(SI64, int64(args[0].(SliceV).len)), nilErr}, true
 	case "os.Getenv":
 		m.stub(name)
 		return m.strConst(""), true
